@@ -3,6 +3,7 @@
  * sk/kk: 1 octet-style driver, 2 chunk-style driver.  Stream octet i has value i.
  */
 #include <errno.h>
+#include <limits.h>
 #include <setjmp.h>
 #include <stdio.h>
 #include <stdlib.h>
@@ -101,22 +102,24 @@ void adapter_exec(Ev *ev)
     volatile int fam = 0;
     if (ev_is(ev, "get") || ev_is(ev, "getam") || ev_is(ev, "geto")) {
         fam = 1;
+        size_t reqn = n < 0 ? (size_t)SSIZE_MAX + 1u : (size_t)n;      /* n = -1: one more than SSIZE_MAX */
         dest = n > 0 ? xblock((size_t)n) : xblock0();
         if (n > 0) memset(dest, 170, (size_t)n);
         if (setjmp(bail) == 0) {
-            if (ev_is(ev, "get")) rc = source_get_chunk(&src, dest, (size_t)n);
+            if (ev_is(ev, "get")) rc = source_get_chunk(&src, dest, reqn);
             else if (ev_is(ev, "getam")) rc = source_get_chunk_atmost(&src, dest, (size_t)n);
             else rc = source_get_octet(&src, dest);
         }
         obs(ev, rc); obs(ev, s.pos);
-        if (!(ev_is(ev, "get") && n == 0)) for (long i = 0; i < n; i++) obs(ev, dest[i]);
+        if (!(ev_is(ev, "get") && n <= 0)) for (long i = 0; i < n; i++) obs(ev, dest[i]);
         if (n > 0) xfree(dest); else xfree0(dest);
     } else if (ev_is(ev, "put") || ev_is(ev, "putam") || ev_is(ev, "puto")) {
         fam = 2;
+        size_t reqn = n < 0 ? (size_t)SSIZE_MAX + 1u : (size_t)n;
         data = n > 0 ? xblock((size_t)n) : xblock0();
         for (long i = 0; i < n; i++) data[i] = (unsigned char)(i + 1);
         if (setjmp(bail) == 0) {
-            if (ev_is(ev, "put")) rc = sink_put_chunk(&snk, data, (size_t)n);
+            if (ev_is(ev, "put")) rc = sink_put_chunk(&snk, data, reqn);
             else if (ev_is(ev, "putam")) rc = sink_put_chunk_atmost(&snk, data, (size_t)n);
             else rc = sink_put_octet(&snk, data[0]);
         }
